@@ -109,6 +109,7 @@ def domination_monitor(ctx):
             for pt, d, ch, t, b, t0, b0 in o["copy_mismatch"]:
                 res["copy_mismatch"].append({
                     "L": L, "separation": [b2f(x) for x in pt], "separation_bits": pt, "direction": d, "charges": ch,
+                    "true_derivative": b2f(t), "bounding_derivative": b2f(b),
                     "true_derivative_of_deep_copy": b2f(t), "true_derivative_configured": b2f(t0),
                     "bounding_derivative_of_deep_copy": b2f(b), "bounding_derivative_configured": b2f(b0),
                     "kb": job["kb"], "km": job["km"], "configs": job["configs"],
